@@ -306,6 +306,9 @@ pub struct SimChain {
     /// (absolute RPC index, code): that call is answered with this JSON-RPC error whatever the state is
     /// (code 0: a successful reply whose result is not of the expected type).
     pub rpc_override: Option<(u64, i32)>,
+    /// every call of that method is answered with a complete, well-formed reply whose result is not of the expected shape
+    /// (a node newer than the RPC client's structs)
+    pub rpc_wrong_shape_for: Option<String>,
     pub first_outage_seen: bool,
     pub src_count: u64,
     /// Block source calls with index in [a, b) fail with a transient error.
@@ -353,6 +356,7 @@ impl SimChain {
             rpc_down_is_warmup: false,
             second_outage: None,
             rpc_override: None,
+            rpc_wrong_shape_for: None,
             first_outage_seen: false,
             src_count: 0,
             src_fail: None,
@@ -701,6 +705,10 @@ impl SimChain {
                 }
             }
             return Err(if warmup { RpcFailure::Rpc(-28, "Loading block index...".into()) } else { RpcFailure::Transport });
+        }
+        if self.rpc_wrong_shape_for.as_deref() == Some(method) {
+            self.rpc_log.push(RpcRecord { method: method.to_owned(), txid: txid_param(params), verdict: "injected:wrong-shape".into(), node_height });
+            return Ok(json!({"unexpected": ["shape", 1]}));
         }
         if let Some((at, code)) = self.rpc_override {
             if at == idx {
